@@ -336,6 +336,10 @@ func (vr *variableResolver) resolve(ctx *ExecutionContext) (*Value, error) {
 							return AsValue(nil), nil
 						}
 					case reflect.Map:
+						if !reflect.TypeOf(part.s).AssignableTo(current.Type().Key()) {
+							// a name can only be a key of a map with string keys
+							return AsValue(nil), nil
+						}
 						current = current.MapIndex(reflect.ValueOf(part.s))
 					default:
 						return nil, fmt.Errorf("can't access a field by name on type %s (variable %s)",
